@@ -39,6 +39,8 @@ pub struct Features {
     pub replacement: bool,
     pub service: bool,
     pub pickups: bool,
+    /// Random error flags (legal input, known finding domain) instead of two "islands" (verdict domain).
+    pub unreachable_random: bool,
 }
 
 impl Features {
@@ -51,7 +53,7 @@ impl Features {
             multi_job, multi_dim, multi_tw, multi_place, tags, skills, groups, compat, order, value, limits, tour_size,
             multi_shift, open_end, latest_departure, unreachable, multi_profile, scale, reloads, shared_reload,
             opt_breaks, req_breaks, relations, nonmetric, asymmetric, objectives, same_location, tight, many_vehicles,
-            replacement, service, pickups
+            replacement, service, pickups, unreachable_random
         );
         v
     }
@@ -72,6 +74,7 @@ impl Features {
             same_location: 1.0, tight: 0.8, many_vehicles: 0.6, replacement: 0.5, service: 0.6, pickups: 1.2
         );
         f.shared_reload = f.shared_reload && f.reloads;
+        f.unreachable_random = f.unreachable && p.chance(0.35);
         f
     }
 
@@ -83,6 +86,7 @@ impl Features {
             shared_reload: true, opt_breaks: true, req_breaks: true, relations: true, nonmetric: true, asymmetric: true,
             objectives: true, same_location: true, tight: true, many_vehicles: true, replacement: true, service: true,
             pickups: true,
+            unreachable_random: true,
         }
     }
 }
@@ -534,6 +538,25 @@ pub fn generate(seed: u64, limits: &GenLimits, allowed: &Features) -> GenProblem
         problem["objectives"] = Value::Array(objs);
     }
 
+    // ---- islands for the closed unreachability pattern
+    let island: Vec<u8> = (0..n).map(|_| cx.p.chance(0.3) as u8).collect();
+    if f.unreachable && !f.unreachable_random {
+        if let Some(vs) = problem["fleet"]["vehicles"].as_array_mut() {
+            for v in vs {
+                if let Some(shifts) = v["shifts"].as_array_mut() {
+                    for s in shifts {
+                        let start = s["start"]["location"]["index"].as_u64().unwrap_or(0) as usize;
+                        if let Some(end) = s.get("end").and_then(|e| e["location"]["index"].as_u64()) {
+                            if island[end as usize] != island[start] {
+                                s["end"]["location"] = loc(start);
+                            }
+                        }
+                    }
+                }
+            }
+        }
+    }
+
     // ---- matrices
     let pts: Vec<(f64, f64)> = (0..n).map(|_| (cx.p.range(0, 60) as f64, cx.p.range(0, 60) as f64)).collect();
     let mut matrices = vec![];
@@ -580,11 +603,23 @@ pub fn generate(seed: u64, limits: &GenLimits, allowed: &Features) -> GenProblem
         m.insert("distances".into(), json!(dist));
         if f.unreachable {
             let mut codes = vec![0i64; n * n];
-            for _ in 0..(n * n / 8).max(1) {
-                let i = cx.p.usize(0, n - 1);
-                let j = cx.p.usize(0, n - 1);
-                if i != j {
-                    codes[i * n + j] = 1;
+            if f.unreachable_random {
+                for _ in 0..(n * n / 8).max(1) {
+                    let i = cx.p.usize(0, n - 1);
+                    let j = cx.p.usize(0, n - 1);
+                    if i != j {
+                        codes[i * n + j] = 1;
+                    }
+                }
+            } else {
+                // two islands: every leg between them is flagged in both directions, so the flagged set is closed
+                // under taking a stop out of a tour (removal can never create a flagged leg)
+                for i in 0..n {
+                    for j in 0..n {
+                        if island[i] != island[j] {
+                            codes[i * n + j] = 1;
+                        }
+                    }
                 }
             }
             m.insert("errorCodes".into(), json!(codes));
@@ -620,4 +655,27 @@ pub fn visit_locations(v: &mut Value, f: &mut dyn FnMut(&mut usize)) {
         }
         _ => {}
     }
+}
+
+/// True when the flagged legs of every matrix are closed under shortcuts: whenever i->j is flagged, every
+/// two-leg path i->k->j contains a flagged leg (so taking a stop out of a tour cannot create a flagged leg).
+pub fn flags_are_closed(matrices: &[Value]) -> bool {
+    for m in matrices {
+        if let Some(codes) = m.get("errorCodes").and_then(|c| c.as_array()) {
+            let c: Vec<bool> = codes.iter().map(|x| x.as_i64().unwrap_or(0) > 0).collect();
+            let n = (c.len() as f64).sqrt().round() as usize;
+            for i in 0..n {
+                for j in 0..n {
+                    if c[i * n + j] {
+                        for k in 0..n {
+                            if k != i && k != j && !c[i * n + k] && !c[k * n + j] {
+                                return false;
+                            }
+                        }
+                    }
+                }
+            }
+        }
+    }
+    true
 }
